@@ -1,5 +1,5 @@
 // Correspondence harness for the log macros (C19): every macro family x severity as its own call site; argument
-// expressions bump a counter when evaluated.  Script ops: `min <session 0|1> <severity>`, `stmt <site>`.
+// expressions bump a counter when evaluated.  Script ops: `min <session 0|1> <severity>`, `stmt <site>`, `reseat`.
 // After each statement both sessions are consumed and the event / source entries written are counted.
 #include <binlog/binlog.hpp>
 #include <cstdint>
@@ -109,6 +109,12 @@ int main()
       int s; unsigned sev; in >> s >> sev;
       (s == 0 ? binlog::default_session() : session).setMinSeverity(binlog::Severity(std::uint16_t(sev)));
       seg = "min";
+    }
+    else if (tok == "reseat")
+    {
+      // the thread's default writer is re-seated onto the explicit session: the basic macro families log through it
+      binlog::default_thread_local_writer() = binlog::SessionWriter(session, 1 << 16);
+      seg = "reseat";
     }
     else if (tok == "stmt")
     {
